@@ -5,7 +5,7 @@
 (* rule and one for the implicit rule.  Property C07.                      *)
 (*                                                                         *)
 (* Vocabulary.  A rule has an action and five match fields; a field may be *)
-(* unspecified (Any / AnyN), an address field may carry a wildcard mask    *)
+(* unspecified (AnyP / AnyN), an address field may carry a wildcard mask    *)
 (* (bits set in the mask are ignored).  A packet has a protocol, two       *)
 (* addresses and - for tcp/udp - two ports (ICMP packets carry NoPort).    *)
 (* Addresses, masks and ports are small naturals; the harness embeds them  *)
@@ -20,12 +20,12 @@
 (***************************************************************************)
 EXTENDS Integers, Sequences, FiniteSets, Bitwise
 
-Any    == "any"   \* unspecified protocol
+AnyP    == "any"   \* unspecified protocol
 AnyN   == -1      \* unspecified address / port; "no wildcard mask"
 NoPort == -1      \* the port of a packet that has no ports (ICMP)
 Implicit == -1    \* the "position" of the implicit rule
 
-NoRule == [action |-> "none", proto |-> Any, src |-> AnyN, smask |-> AnyN,
+NoRule == [action |-> "none", proto |-> AnyP, src |-> AnyN, smask |-> AnyN,
            dst |-> AnyN, dmask |-> AnyN, sport |-> AnyN, dport |-> AnyN]
 
 VARIABLES
@@ -57,7 +57,7 @@ AddrMatches(base, mask, a) ==
     \/ /\ base # AnyN /\ mask # AnyN /\ MaskedEq(a, base, mask)
 
 PortMatches(rp, pp)  == rp = AnyN \/ rp = pp
-ProtoMatches(rq, pq) == rq = Any \/ rq = pq
+ProtoMatches(rq, pq) == rq = AnyP \/ rq = pq
 
 Matches(r, p) ==
     /\ ProtoMatches(r.proto, p.proto)
